@@ -138,6 +138,7 @@ type grpSim struct {
 	clients  map[string]*grpClientState
 	simErrs  []string
 	expect   map[string]bool // clients started up front: the first join round waits for all of them
+	coord    int             // listener (broker id - 1) that currently is the group's coordinator
 	hbOK     int             // heartbeats answered OK (the watchdog's clock)
 	failOff  map[string]int  // client -> partition whose ListOffsets requests fail (claim start fails)
 	connLn   map[net.Conn]int
@@ -260,7 +261,10 @@ func (s *grpSim) handleConn(conn net.Conn) {
 			s.mu.Unlock()
 			return
 		}
-		res, drop := s.handle(req)
+		s.mu.Lock()
+		li := s.connLn[conn]
+		s.mu.Unlock()
+		res, drop := s.handle(req, li)
 		if drop {
 			return
 		}
@@ -288,8 +292,76 @@ func (s *grpSim) handleConn(conn net.Conn) {
 	}
 }
 
-func (s *grpSim) handle(req *request) (encoderWithHeader, bool) {
+// stale answers a group request that reached a broker which is not the group's coordinator (any more):
+// NOT_COORDINATOR, nothing applied. Every such request is logged like the others, with stale=true.
+func (s *grpSim) stale(cl string, li int, body protocolBody) encoderWithHeader {
+	s.mu.Lock()
+	defer s.mu.Unlock()
+	if li == s.coord {
+		return nil
+	}
+	nc := ErrNotCoordinatorForConsumer
+	switch r := body.(type) {
+	case *JoinGroupRequest:
+		s.rec.Ev("join_req", kv{"c": cl, "mid": r.MemberId})
+		s.rec.Ev("join_resp", kv{"c": cl, "err": "notcoord", "mid": "", "gen": -1, "stale": true})
+		return &JoinGroupResponse{Version: r.Version, Err: nc, GenerationId: -1}
+	case *SyncGroupRequest:
+		s.rec.Ev("sync_req", kv{"c": cl, "mid": r.MemberId, "gen": int(r.GenerationId)})
+		s.rec.Ev("sync_resp", kv{"c": cl, "err": "notcoord", "claims": []int{}, "stale": true})
+		return &SyncGroupResponse{Err: nc}
+	case *HeartbeatRequest:
+		s.rec.Ev("hb", kv{"c": cl, "mid": r.MemberId, "gen": int(r.GenerationId), "err": "notcoord", "stale": true})
+		return &HeartbeatResponse{Err: nc}
+	case *LeaveGroupRequest:
+		s.rec.Ev("leave", kv{"c": cl, "mid": r.MemberId, "err": "notcoord", "stale": true})
+		return &LeaveGroupResponse{Err: nc}
+	case *OffsetCommitRequest:
+		var ps []int
+		for p := range r.blocks[grpTopic] {
+			ps = append(ps, int(p))
+		}
+		sort.Ints(ps)
+		blocks := [][]int64{}
+		for _, p := range ps {
+			blocks = append(blocks, []int64{int64(p), r.blocks[grpTopic][int32(p)].offset})
+		}
+		s.rec.Ev("commit", kv{"c": cl, "mid": r.ConsumerID, "gen": int(r.ConsumerGroupGeneration), "err": "notcoord", "blocks": blocks,
+			"applied": false, "stale": true})
+		res := &OffsetCommitResponse{Version: r.Version}
+		for topic, bs := range r.blocks {
+			for p := range bs {
+				res.AddError(topic, p, nc)
+			}
+		}
+		return res
+	case *OffsetFetchRequest:
+		res := &OffsetFetchResponse{Version: r.Version}
+		for topic, ps := range r.partitions {
+			for _, p := range ps {
+				res.AddBlock(topic, p, &OffsetFetchResponseBlock{Offset: -1, Err: nc})
+			}
+		}
+		return res
+	}
+	return nil
+}
+
+// moveCoord migrates the group's coordinator to the other broker; the group state (members, generation, offsets) moves along
+func (s *grpSim) moveCoord(locked bool) {
+	if !locked {
+		s.mu.Lock()
+		defer s.mu.Unlock()
+	}
+	s.coord = 1 - s.coord
+	s.rec.Ev("coord_move", kv{"to": s.coord + 1})
+}
+
+func (s *grpSim) handle(req *request, li int) (encoderWithHeader, bool) {
 	cl := req.clientID
+	if res := s.stale(cl, li, req.body); res != nil {
+		return res, false
+	}
 	switch r := req.body.(type) {
 	case *MetadataRequest:
 		res := &MetadataResponse{Version: r.Version}
@@ -317,7 +389,7 @@ func (s *grpSim) handle(req *request) (encoderWithHeader, bool) {
 		if lost {
 			return &FindCoordinatorResponse{Version: r.Version, Err: ErrConsumerCoordinatorNotAvailable}, false
 		}
-		return &FindCoordinatorResponse{Version: r.Version, Coordinator: &Broker{id: 1, addr: s.addr(0)}}, false
+		return s.findCoordinator(r.Version), false
 	case *ConsumerMetadataRequest:
 		s.mu.Lock()
 		lost := s.down[0] && s.sc.LookupFail
@@ -325,8 +397,11 @@ func (s *grpSim) handle(req *request) (encoderWithHeader, bool) {
 		if lost {
 			return &ConsumerMetadataResponse{Err: ErrConsumerCoordinatorNotAvailable}, false
 		}
-		host, port := grpHostPort(s.addr(0))
-		return &ConsumerMetadataResponse{Coordinator: &Broker{id: 1, addr: s.addr(0)}, CoordinatorID: 1, CoordinatorHost: host, CoordinatorPort: port}, false
+		s.mu.Lock()
+		co := s.coord
+		s.mu.Unlock()
+		host, port := grpHostPort(s.addr(co))
+		return &ConsumerMetadataResponse{Coordinator: &Broker{id: int32(co + 1), addr: s.addr(co)}, CoordinatorID: int32(co + 1), CoordinatorHost: host, CoordinatorPort: port}, false
 	case *OffsetRequest:
 		res := &OffsetResponse{Version: r.Version}
 		for topic, bs := range r.blocks {
@@ -388,6 +463,13 @@ func (s *grpSim) handle(req *request) (encoderWithHeader, bool) {
 	s.simErr(fmt.Sprintf("unexpected request %T", req.body))
 	s.mu.Unlock()
 	return nil, true
+}
+
+func (s *grpSim) findCoordinator(version int16) *FindCoordinatorResponse {
+	s.mu.Lock()
+	co := s.coord
+	s.mu.Unlock()
+	return &FindCoordinatorResponse{Version: version, Coordinator: &Broker{id: int32(co + 1), addr: s.addr(co)}}
 }
 
 func grpHostPort(addr string) (string, int32) {
@@ -1019,6 +1101,15 @@ func (c *grpClient) fireL(at string, sess ConsumerGroupSession, simLocked bool) 
 		c.cancel()
 	case "close":
 		c.doClose()
+	case "coord_move":
+		c.run.sim.moveCoord(simLocked)
+	case "coord_move_cancel":
+		c.run.sim.moveCoord(simLocked)
+		c.mu.Lock()
+		c.cancelled = true
+		c.mu.Unlock()
+		c.run.rec.Ev("cancel", kv{"c": c.name})
+		c.cancel()
 	case "coord_down_close":
 		c.run.sim.coordDown()
 		c.doClose()
